@@ -494,7 +494,12 @@ class RSocketBase(RSocket, RSocketInternal):
         self._is_closing = True
         await cancel_if_task_exists(self._sender_task)
         self._sender_task = None
-        await cancel_if_task_exists(self._receiver_task)
+
+        if self._receiver_task is not asyncio.current_task():
+            # (the receiver runs this itself when its connection ended: a task which awaits itself can
+            # no longer be awaited by anybody else, e.g. by a reconnect which is stopping it at that moment)
+            await cancel_if_task_exists(self._receiver_task)
+
         self._receiver_task = None
 
     async def _close_transport(self):
